@@ -95,6 +95,12 @@ func (e *Engine) verifyFunc(name, prop string, cfg solverCfg, verbose bool) *fun
 	if vc.aborted != "" {
 		fr.Unsupported = append(fr.Unsupported, vc.aborted)
 	}
+	if len(fr.Unsupported) > 0 {
+		// the function is outside the verified subset: that alone is reported (every obligation of it is undecided)
+		fr.Obligs = nil
+		fr.Secs = time.Since(t0).Seconds()
+		return fr
+	}
 	var rest []*Oblig
 	for _, o := range vc.obligs {
 		if o.Result == "" {
